@@ -646,6 +646,50 @@ def rule_hyper_count(ctx):
     return r
 
 
+# ------------------------------------------------------------- linop dtype
+def rule_linop_dtype(ctx):
+    r = RuleResult(
+        "linop-dtype",
+        "the dtype a TNLinearOperator advertises to scipy (super().__init__(dtype=...)) is computed over *all* of its tensors "
+        "(a common / result type over an iteration of self._tensors), never read from one element: solvers allocate their "
+        "work arrays in the advertised dtype, so a real first tensor in a network that also holds complex ones makes them "
+        "discard the imaginary parts of every matvec",
+    )
+    cls = ctx.prog.cls("quimb.tensor.tensor_core", "TNLinearOperator")
+    init = cls.methods.get("__init__")
+    if init is None:
+        raise AnalysisError("TNLinearOperator.__init__ not found")
+    where = f"{init.module.relpath}:{init.lineno}"
+    sup = [c for c in ast.walk(init.node) if isinstance(c, ast.Call) and isinstance(c.func, ast.Attribute) and c.func.attr == "__init__"
+           and isinstance(c.func.value, ast.Call) and getattr(c.func.value.func, "id", None) == "super"]
+    if not sup:
+        raise AnalysisError("TNLinearOperator.__init__: super().__init__ not found")
+    dt = next((k.value for k in sup[0].keywords if k.arg == "dtype"), None)
+    if dt is None:
+        raise AnalysisError("TNLinearOperator.__init__: dtype= not passed to LinearOperator")
+    defs = {}
+    for a in ast.walk(init.node):
+        if isinstance(a, ast.Assign) and len(a.targets) == 1 and isinstance(a.targets[0], ast.Name):
+            defs[a.targets[0].id] = a.value
+    e = dt
+    hops = 0
+    while isinstance(e, ast.Name) and e.id in defs and hops < 4:
+        e = defs[e.id]
+        hops += 1
+    single = [x for x in ast.walk(e) if isinstance(x, ast.Subscript) and isinstance(const_value(x.slice, None), int)
+              and any(isinstance(y, (ast.Attribute, ast.Name)) and (getattr(y, "attr", None) or getattr(y, "id", None)) in ("_tensors", "tns", "tensors") for y in ast.walk(x.value))]
+    over_all = any(isinstance(x, (ast.GeneratorExp, ast.ListComp, ast.Starred)) for x in ast.walk(e)) or any(
+        isinstance(x, ast.Attribute) and x.attr in ("arrays", "dtype") and isinstance(x.value, ast.Name) and x.value.id in ("tns", "self") for x in ast.walk(e))
+    if single and not over_all:
+        r.bad(Finding("linop-dtype", "TNLinearOperator.__init__", f"advertises dtype `{src_of(e)}`, the dtype of a single tensor: wrong for networks of mixed real / complex tensors",
+                      where=where, operand="single-tensor"))
+    elif over_all:
+        r.ok("TNLinearOperator.__init__[dtype]", sample={"dtype": src_of(e)[:70]})
+    else:
+        r.skip("TNLinearOperator.__init__[dtype]", f"dtype expression `{src_of(e)[:60]}` not classified")
+    return r
+
+
 # -------------------------------------------------- partial contraction routes
 def rule_partial_contraction_inds(ctx):
     r = RuleResult(
